@@ -48,6 +48,8 @@ func compileLocus(msgs []string) string {
 		return "genReadArray-byte"
 	case strings.Contains(all, "ReadBlock undefined") || strings.Contains(all, "WriteBlock undefined"):
 		return "checkDepTName-array"
+	case regexp.MustCompile(`undefined: ([xX][msc])\d+`).MatchString(all):
+		return "module-not-imported"
 	case regexp.MustCompile(`undefined: ([mM]od|inc)\d+`).MatchString(all):
 		return "checkDepTName-array"
 	case regexp.MustCompile(`undefined: [a-z]\w*_\w+`).MatchString(all):
